@@ -11,7 +11,7 @@ CORRESPONDENCE = ("Model/Transports.lean (stub log, .eml/.json contents, sendmai
                   "are compared with the one model and with each other)")
 RULE = ("transports: envelopes (no / ASCII / quoted / UTF-8 reverse path, 1..3 recipients incl. ones beginning with '-', quoted and "
         "UTF-8) x contents (ASCII, dots, 8-bit UTF-8, non-UTF-8 binary, empty, 100 KiB) x fake sendmail programs (succeed and dump "
-        "argv+stdin / fail with diagnostics / fail with non-UTF-8 diagnostics), through the sync and tokio stub, file(+envelope) and "
+        "argv+stdin / fail with diagnostics / fail with non-UTF-8 diagnostics / die from a signal), through the sync and tokio stub, file(+envelope) and "
         "sendmail transports; sendmsg: Transport::send(&Message) on the stub vs (envelope(), formatted()); client: each scripted server "
         "behaviour of C05 run through the sync client and the tokio client. Non-trivial = non-ASCII or dotted content, or more than "
         "one recipient, or a failing sendmail; distinct = distinct case lines.")
@@ -21,8 +21,8 @@ TRUSTED_BASE = ["Lean 4 kernel", "axioms: propext, Quot.sound, Classical.choice 
 ASSUMPTIONS = ["std::process::Command passes each arg as one argv element", "serde_json round-trips strings", "uuid v4 ids do not collide"]
 EXHAUSTIVE_PARTS = []
 
-FROMS = ["a@b.c", "-", "\"a b\"@example.com", "üser@example.com", "-f@evil.example"]
-TOS = ["x@y.z", "-x@o.c", "-oQ/tmp@o.c", "\"q\\\"uote\"@z.z", "用户@例え.jp", "first.last@example.org", "--@dash.example"]
+FROMS = ["a@b.c", "-", "\"a b\"@example.com", "üser@example.com", "-f@evil.example", "\"ops@night\"@example.org"]
+TOS = ["x@y.z", "-x@o.c", "-oQ/tmp@o.c", "\"q\\\"uote\"@z.z", "用户@例え.jp", "first.last@example.org", "--@dash.example", "\"a@b\"@example.net", "x@[127.0.0.1]"]
 MSGS = [b"hello\r\n", b".dot\r\n..\r\n.\r\n", b"caf\xc3\xa9\r\n", b"\xff\xfe\x00bin", b"", b"Subject: x\r\n\r\n" + b"0123456789" * 10000]
 
 
@@ -33,7 +33,7 @@ def gen(tier, rng):
         f = rng.choice(FROMS)
         to = [rng.choice(TOS) for _ in range(rng.choice([1, 1, 2, 3]))]
         msg = rng.choice(MSGS)
-        kind = rng.choice(["ok", "ok", "fail", "failbin"])
+        kind = rng.choice(["ok", "ok", "fail", "failbin", "killed"])
         cases.append(f"transports\t{hexs(f) if f != '-' else '-'}\t{hexlist([t.encode() for t in to])}\t{hexs(msg)}\t{kind}")
     for subj, body in [("s", "b\r\n"), ("héllo wörld", "bödy\r\n"), ("x" * 200, ".\r\n.\r\n")]:
         cases.append(f"sendmsg\t{hexs('A <a@b.c>')}\t{hexs('x@y.z')}\t{hexs(subj)}\t{hexs(body)}")
